@@ -4,7 +4,7 @@ import numpy as np
 from common import *
 
 PROP_MODULES = ["HvsrVerif.Props.C16"]
-BRIDGE_MODULES = ["HvsrVerif.Bridge.C16"]
+BRIDGE_MODULES = ["HvsrVerif.Bridge.C16", "HvsrVerif.Bridge.PySesame"]
 EDGES = [0.2, 0.5, 1.0, 2.0]
 
 
